@@ -30,6 +30,10 @@ fn main() {
     let args: Vec<String> = std::env::args().collect();
     // Everything runs on a thread with a large stack so that neither the model nor the real
     // decoder overflow on inputs of the sizes the mass scenarios generate (<= 64 KiB).
+    // Under Miri (extra oracle for the ledger scenario) everything runs on the main thread.
+    if cfg!(miri) {
+        std::process::exit(driver::main(args));
+    }
     let child = std::thread::Builder::new().stack_size(1 << 30).spawn(move || driver::main(args)).expect("spawn main thread");
     let code = child.join().unwrap_or(2);
     std::process::exit(code);
